@@ -73,6 +73,27 @@ def label_boundary_cases(rnd, n_random=0):
     return cases
 
 
+def shared_label_cases(rnd, n):
+    """ONE label referenced by several statements through fields of different width (direct / 8-bit immediate next to extended / 16-bit immediate /
+    indirect), in any order, before and after its definition: every reference is encoded at ITS field's width."""
+    narrow = [("LDA", "mem", {"force": "<"}), ("STB", "mem", {"force": "<"}), ("LDA", "imm", {}), ("CMPB", "imm", {}), ("ANDA", "imm", {})]
+    wide = [("LDX", "imm", {}), ("CMPY", "imm", {}), ("JMP", "mem", {}), ("LDD", "mem", {"force": ">"}), ("JMP", "extind", {}), ("LDU", "imm", {}), ("JSR", "mem", {})]
+    cases = []
+    for _ in range(n):
+        a = rnd.choice([0, 1, 0x10, 0x7F, 0x80, 0xF0, 0xFE, 0xFF, 0x100, 0x1234])
+        k = rnd.randint(2, 5)
+        picks = [rnd.choice(narrow if rnd.random() < 0.5 else wide) for _ in range(k)]
+        if a <= 0xFF and not any(p in narrow for p in picks):
+            picks[0] = rnd.choice(narrow)
+        if not any(p in wide for p in picks):
+            picks[-1] = rnd.choice(wide)
+        uses = [stmt(mn, form, label="U%d" % j, expr=ex(sym("L")), **kw) for j, (mn, form, kw) in enumerate(picks)]
+        pos = rnd.randint(0, len(uses))
+        prog = [stmt("ORG", "org", expr=ex(num(a, "hex4")))] + uses[:pos] + [stmt("NOP", label="L")] + uses[pos:] + [stmt("NOP", label="E")]
+        cases.append(Case(prog, focus=2 if pos else 3, tag="shared-label"))
+    return cases
+
+
 def run(ctx):
     thorough = ctx.tier == "thorough"
     rnd = random.Random(ctx.seed * 32452843 + 4)
@@ -84,6 +105,7 @@ def run(ctx):
     asmcheck.run_suite(ctx, "expr-table", [Case(r["prog"], focus=r["focus"], tag="table") for r in recs])
     asmcheck.run_suite(ctx, "expr-random", random_cases(rnd, recs, 150000 if thorough else 8000))
     asmcheck.run_suite(ctx, "label-boundary", label_boundary_cases(rnd, 30000 if thorough else 1500))
+    asmcheck.run_suite(ctx, "shared-label-mixed-width", shared_label_cases(rnd, 10000 if thorough else 800))
     ctx.cov["rule"] = ("TLC-enumerated frames: operand position (imm8, imm16, extended, [extended], index offset, PCR target, branch target, FCB, FDB, RMB, EQU) x "
                        "{number in each spelling, EQU before/after, label before/after} op {same} for + - * /, two origins (labels below / above $100); plus seeded random "
                        "redraws of both terms and of the EQU values. Judged by TLC: encoded value = Asm!Eval under the environment the listing claims, symbol-table "
